@@ -63,7 +63,7 @@ impl ReplHighlighter {
             Some((
                 _,
                 &Token {
-                    token_type: TokenType::LeftParen | TokenType::RightParen,
+                    token_type: TokenType::LeftParen | TokenType::HashParen | TokenType::RightParen,
                     ..
                 },
             ))
@@ -75,28 +75,30 @@ fn find_matching_bracket<'a>(
     tokens: &'a [Token],
     bracket: (usize, &'a Token),
 ) -> Option<&'a Token> {
-    let (have, want, mut iter): (TokenType, TokenType, Box<dyn Iterator<Item = &Token>>) =
+    // A vector opener `#(` is an opening bracket like `(`
+    let is_open = |t: &TokenType| matches!(t, TokenType::LeftParen | TokenType::HashParen);
+    let is_close = |t: &TokenType| matches!(t, TokenType::RightParen);
+
+    let (have_open, mut iter): (bool, Box<dyn Iterator<Item = &Token>>) =
         match bracket.1.token_type {
-            TokenType::RightParen => (
-                TokenType::RightParen,
-                TokenType::LeftParen,
-                Box::new(tokens[..(bracket.0)].iter().rev()),
-            ),
-            TokenType::LeftParen => (
-                TokenType::LeftParen,
-                TokenType::RightParen,
-                Box::new(tokens[(bracket.0 + 1)..].iter()),
-            ),
+            TokenType::RightParen => (false, Box::new(tokens[..(bracket.0)].iter().rev())),
+            TokenType::LeftParen | TokenType::HashParen => {
+                (true, Box::new(tokens[(bracket.0 + 1)..].iter()))
+            }
             _ => return None,
         };
 
     let mut stack = 0;
     for it in &mut *iter {
-        if it.token_type == have {
+        let (is_have, is_want) = match have_open {
+            true => (is_open(&it.token_type), is_close(&it.token_type)),
+            false => (is_close(&it.token_type), is_open(&it.token_type)),
+        };
+        if is_have {
             stack += 1;
         }
 
-        if it.token_type == want {
+        if is_want {
             if stack == 0 {
                 return Some(it);
             } else {
